@@ -245,6 +245,10 @@ class Engine(object):
         if isinstance(a, list) and isinstance(b, list) and op == '+':
             return a + b
         if isinstance(a, (ArrV, LazyArr)) or isinstance(b, (ArrV, LazyArr)):
+            if isinstance(a, list):
+                a = LazyArr(len(a), lambda k, l=a: l[k])
+            if isinstance(b, list):
+                b = LazyArr(len(b), lambda k, l=b: l[k])
             return self.elementwise(op, a, b, st, pc, e)
         return arith(op, a, b)
 
@@ -271,6 +275,8 @@ class Engine(object):
                     raise Unsupported("symbolic 'in'")
             else:
                 op = _CMP[type(opn)]
+                if isinstance(left, list) and not isinstance(right, (list, tuple)) and self.mode == 'B' and left and not isinstance(left[0], (list, tuple)):
+                    left = LazyArr(len(left), lambda k, l=left: l[k])
                 if isinstance(left, (ArrV, LazyArr)) or isinstance(right, (ArrV, LazyArr)):
                     if len(e.ops) != 1:
                         raise Unsupported("chained array comparison")
@@ -425,13 +431,26 @@ class Engine(object):
                 raise Unsupported("slice of strided view")
             return ArrV(v.buf, arith('+', v.off, lo), n, step)
         i = self.ev(e.slice, st, pc)
-        if isinstance(i, LazyArr) and self.mode == 'B' and isinstance(i.n, int) and isinstance(v.n, int):
+        if isinstance(i, (ArrV, LazyArr)) and self.mode == 'B' and isinstance(i.n, int) and i.n == 0 and isinstance(v.n, int) and v.n != 0:
+            return st.alloc([], 0, "empty-index@%d" % e.lineno)
+        if isinstance(i, (ArrV, LazyArr)) and self.mode == 'B' and isinstance(i.n, int) and isinstance(v.n, int):
             # boolean mask (bounded mode): each mask entry is decided by the path condition or forked
-            first = i.fn(0) if i.n > 0 else True
+            first = st.elem(i, 0) if i.n > 0 else True
             if isinstance(first, bool) or (is_z3(first) and first.sort() == B):
                 self.oblige("mask-shape:%s@%d" % (ast.unparse(e)[:40], e.lineno), pc, i.n == v.n)
-                keep = [st.elem(v, k) for k in range(min(i.n, v.n)) if self.demand_bool(i.fn(k), pc)]
+                keep = [st.elem(v, k) for k in range(min(i.n, v.n)) if self.demand_bool(st.elem(i, k), pc)]
                 return st.alloc(keep, len(keep), "masked@%d" % e.lineno)
+        if isinstance(i, (ArrV, LazyArr)) and self.mode == 'B' and isinstance(i.n, int):
+            idx = [st.elem(i, k) for k in range(i.n)]
+            if all(isinstance(x, int) and not isinstance(x, bool) for x in idx):
+                out_ = []
+                for x in idx:
+                    x = self.norm_index(x, v.n)
+                    self.bounds(x, v.n, pc, ast.unparse(e)[:40], e)
+                    if isinstance(v.n, int) and not (0 <= x < v.n):
+                        raise PathAbort()
+                    out_.append(st.elem(v, x))
+                return st.alloc(out_, len(out_), "gather@%d" % e.lineno)
         if isinstance(i, (ArrV, LazyArr, list)):
             raise Unsupported("fancy indexing at line %d" % e.lineno)
         i = self.need_finite(i, pc, 'index', e)
@@ -459,6 +478,12 @@ class Engine(object):
             args = [self.ev(a, st, pc) for a in e.args]
             kw = {k.arg: self.ev(k.value, st, pc) for k in e.keywords}
             return b(args, kw, st, pc, e)
+        if isinstance(e.func, ast.Name) and isinstance(st.vars.get(fn), Rec):
+            # calling an object: its class' __call__
+            rec = st.vars[fn]
+            args = [self.ev(a, st, pc) for a in e.args]
+            kw = {k.arg: self.ev(k.value, st, pc) for k in e.keywords}
+            return self.adopt_single(self.method_paths(rec, '__call__', args, kw, st, pc, e), st, pc, rec.cls + '.__call__')
         if isinstance(e.func, ast.Attribute) and isinstance(e.func.value, ast.Name) and \
                 isinstance(st.vars.get(e.func.value.id), Rec):
             rec = st.vars[e.func.value.id]
@@ -471,6 +496,10 @@ class Engine(object):
                 if key in self.call_models:
                     return self.call_models[key](self, [rec] + args, kw, st, pc, e)
                 return self.inline_merge(cls[mname], [rec] + args, kw, st, pc, e)
+            if cls is None and rec.cls in CLASS_HOME:
+                args = [self.ev(a, st, pc) for a in e.args]
+                kw = {k.arg: self.ev(k.value, st, pc) for k in e.keywords}
+                return self.adopt_single(self.method_paths(rec, mname, args, kw, st, pc, e), st, pc, rec.cls + '.' + mname)
         if isinstance(e.func, ast.Attribute) and e.func.attr in ('sort', 'copy', 'tolist'):
             base = self.ev(e.func.value, st, pc)
             if isinstance(base, (ArrV, LazyArr)):
@@ -666,6 +695,12 @@ class Engine(object):
             raise ForkRequest(k == vals[0])
         raise Unsupported("int() of symbolic")
 
+    def bi_np_arange(self, args, kw, st, pc, node):
+        if not all(isinstance(a, int) for a in args):
+            raise Unsupported("np.arange with symbolic bounds")
+        vals = list(range(*args))
+        return st.alloc(vals, len(vals), "arange@%d" % node.lineno)
+
     def bi_np_linspace(self, args, kw, st, pc, node):
         """assumed numpy contract: num equally spaced points from start to stop inclusive"""
         a, b, num = args[0], args[1], args[2] if len(args) > 2 else kw.get('num', 50)
@@ -825,6 +860,19 @@ class Engine(object):
         side = kw.get('side', args[2] if len(args) > 2 else 'left')
         if isinstance(v, (ArrV, LazyArr, list, tuple)):
             vs = self._elems(v, st, pc)
+            A_ = st.acc(a)
+            if self.mode == 'B' and isinstance(a.n, int) and kw.get('sorter') is None:
+                # bounded mode: the count is made concrete by demanding each comparison (decided by the path condition
+                # - the array is sorted, so at most len(a)+1 outcomes - or forked)
+                out = []
+                for x in vs:
+                    x = self.need_finite(x, pc, 'searchsorted', node)
+                    cnt = 0
+                    for k in range(a.n):
+                        if self.demand_bool(cmp('<', A_[k], x) if side == 'left' else cmp('<=', A_[k], x), pc):
+                            cnt += 1
+                    out.append(cnt)
+                return st.alloc(out, len(out), "searchsorted@%d" % node.lineno)
             out = [self.bi_np_searchsorted([a, x] + list(args[2:]), kw, st, pc, node) for x in vs]
             return st.alloc(out, len(out), "searchsorted@%d" % node.lineno)
         v = self.need_finite(v, pc, 'searchsorted', node)
@@ -1007,6 +1055,26 @@ class Engine(object):
                 self.store_slice(a, lo, hi, step, val, st, pc, tgt)
                 return
             i = self.ev(tgt.slice, st, pc)
+            if isinstance(i, (ArrV, LazyArr)) and self.mode == 'B' and isinstance(i.n, int) and isinstance(a.n, int):
+                idx = [st.elem(i, k) for k in range(i.n)]
+                scalar = not isinstance(val, (ArrV, LazyArr, list, tuple))
+                if idx and all(isinstance(x, bool) or (is_z3(x) and x.sort() == B) for x in idx) or (not idx and False):
+                    # boolean mask store: a[mask] = value(s)
+                    pos = [k for k in range(len(idx)) if self.demand_bool(idx[k], pc)]
+                elif all(isinstance(x, int) and not isinstance(x, bool) for x in idx):
+                    pos = idx
+                else:
+                    raise Unsupported("fancy-index store at line %d" % tgt.lineno)
+                src = None if scalar else self._elems(val, st, pc)
+                if src is not None:
+                    self.oblige("fancy-store-shape@%d" % tgt.lineno, pc, len(src) == len(pos))
+                for n_, k in enumerate(pos):
+                    k = self.norm_index(k, a.n)
+                    self.bounds(k, a.n, pc, "store " + ast.unparse(tgt)[:40], tgt)
+                    if not (0 <= k < a.n):
+                        raise PathAbort()
+                    self.store_elem(a, k, val if scalar else src[n_], st, pc, tgt)
+                return
             if isinstance(i, (ArrV, LazyArr, list)):
                 raise Unsupported("fancy-index store at line %d" % tgt.lineno)
             i = self.need_finite(i, pc, 'index', tgt)
@@ -1081,6 +1149,11 @@ class Engine(object):
     def st_Expr(self, s, st, pc):
         if isinstance(s.value, ast.Constant):
             return [(st, pc, None)]
+        mt = self.stmt_method_target(s.value, st)
+        if mt is not None:
+            args = [self.ev(a, st, pc) for a in s.value.args]
+            kw = {k.arg: self.ev(k.value, st, pc) for k in s.value.keywords}
+            return [(st2, pc2, None) for (st2, pc2, rv) in self.method_paths(mt[0], mt[1], args, kw, st, pc, s)]
         self.ev(s.value, st, pc)
         return [(st, pc, None)]
 
@@ -1171,6 +1244,32 @@ class Engine(object):
             out.append((State(dict(st.vars), s2.heap), pc2, o2[1]))
         return out
 
+    def method_paths(self, rec, mname, args, kw, st, pc, node):
+        """execute a method of an object in the context of its class' home module (may fork, may change the heap)"""
+        from . import source
+        mod = source.module(CLASS_HOME[rec.cls])
+        fdef = mod.func(mname, rec.cls)
+        saved = (self.funcs, self.classes, self.cur_func)
+        self.funcs = mod.funcs
+        self.classes = {cn: {m.name: m for m in cd.body if hasattr(m, 'name')} for cn, cd in mod.classes.items()}
+        try:
+            return self.callee_paths(fdef, [rec] + list(args), kw, st, pc, node)
+        finally:
+            self.funcs, self.classes, self.cur_func = saved
+
+    def stmt_method_target(self, value, st):
+        """statement-level `obj.method(...)` / `obj(...)` on an object whose class is not in the current module"""
+        if not isinstance(value, ast.Call):
+            return None
+        f = value.func
+        if isinstance(f, ast.Name) and isinstance(st.vars.get(f.id), Rec) and st.vars[f.id].cls in CLASS_HOME and st.vars[f.id].cls not in self.classes:
+            return st.vars[f.id], '__call__'
+        if isinstance(f, ast.Attribute) and isinstance(f.value, ast.Name) and isinstance(st.vars.get(f.value.id), Rec):
+            r = st.vars[f.value.id]
+            if r.cls in CLASS_HOME and r.cls not in self.classes:
+                return r, f.attr
+        return None
+
     def stmt_call_target(self, value, st):
         """the FuncRef a statement-level call goes to, if any"""
         if isinstance(value, ast.Call) and isinstance(value.func, ast.Name):
@@ -1183,6 +1282,16 @@ class Engine(object):
         return None
 
     def st_Assign(self, s, st, pc):
+        mt = self.stmt_method_target(s.value, st)
+        if mt is not None:
+            args = [self.ev(a, st, pc) for a in s.value.args]
+            kw = {k.arg: self.ev(k.value, st, pc) for k in s.value.keywords}
+            out = []
+            for (st2, pc2, rv) in self.method_paths(mt[0], mt[1], args, kw, st, pc, s):
+                for t in s.targets:
+                    self.assign(t, rv, st2, pc2)
+                out.append((st2, pc2, None))
+            return out
         tgt = self.stmt_call_target(s.value, st)
         if tgt is not None:
             args = [self.ev(a, st, pc) for a in s.value.args]
@@ -1194,6 +1303,9 @@ class Engine(object):
                 out.append((st2, pc2, None))
             return out
         v = self.ev(s.value, st, pc)
+        if isinstance(v, LazyArr) and self.mode == 'B' and isinstance(v.n, int):
+            # numpy evaluates an element-wise expression into a new array: materialise it (it may be stored into later)
+            v = st.alloc([v.fn(k) for k in range(v.n)], v.n, "expr@%d" % s.lineno)
         if self.mode == 'B' and (is_int_sorted(v) or (isinstance(v, tuple) and any(is_int_sorted(x) for x in v))):
             items = list(v) if isinstance(v, tuple) else [v]
             combos = [([], pc)]
